@@ -241,6 +241,17 @@ class Session:
             pass
         except ValueError:
           pass
+      if '_left_by' in op:
+        # a scope block entered and left again (through an exception that may not be an Exception subclass)
+        # before the call: the active scope is what it was
+        class _Leave(BaseException if op['_left_by'][1] else Exception):
+          pass
+        try:
+          with gin.config_scope(op['_left_by'][0]):
+            with gin.config_scope('inner_x'):
+              raise _Leave()
+        except _Leave:
+          pass
       if ent.api == 'register' or op.get('_via') == 'get_configurable':
         fn = gin.get_configurable(ent.original)
       elif op.get('_via') == 'selector':
